@@ -3,6 +3,7 @@ import VlsModel.Gen.FnEnforce
 import VlsModel.Gen.FnSimpleState
 import VlsModel.Lemmas.FnGen
 import VlsModel.Lemmas.EnforcementFn
+import VlsModel.Lemmas.HandlerFn
 import VlsModel.Props.C01Fn
 /-
 C02 — the guard that makes the CURRENT holder commitment the only one that can be signed for broadcast,
@@ -224,5 +225,84 @@ example :=
   C02_fn_signRedundant (K := Unit) (fun n => n) () (fun _ _ => ((), ())) (fun _ _ => ((), ()))
     (fun _ _ _ _ _ _ => contentRules true "") { slot := .ready, next := 2, cur := some 1 } 1 0 1 true "" rfl (by decide) rfl
     (by decide)
+
+/-! ### Arms of the request handlers (vls-protocol-signer/src/handler.rs), round 9
+
+`ChannelHandler::do_handle`'s arms `SignLocalCommitmentTx2`, `SignMutualCloseTx2` and `RootHandler::do_handle`'s arm
+`SignCommitmentTx` (CLN: locktime 0 means "this is really a mutual close") as regenerated in `Gen/FnHandlerArms.lean`
+(see the section of the same name in `Props/C01Fn.lean`), run on a model channel: the reply class is that of the
+model's `signHolder` / `signMutualClose` request behind `Node::with_channel`'s refusal of a stub, a holder signature in
+the reply is the one for the requested number, and the root handler's locktime test selects between the two. -/
+section HandlerArms
+open VlsModel.Secrets VlsModel.Lemmas.HandlerFn
+open VlsModel.Gen.FnHandlerArms
+
+/-- `SignLocalCommitmentTx2` -/
+theorem C02_fn_handle_sign_local_commitment_tx2 (F : Nat → Bytes → Bytes) (c : Chan) (ver n : Nat) :
+    let g := ChannelHandler.handle_sign_local_commitment_tx2 (Signature := Nat) readyChannel
+               (fun ch k => resM (signHolder ch k).out.res k) (fun s => ⟨s, 1⟩) (handler c ver) ⟨n⟩
+    let o := (chanStep F c (.signHolder n)).out
+    o.res = hcls g ∧ (∀ r, g = .ok r → o.signed = some r.signature.signature) := by
+  cases hs : c.slot
+  · simp [ChannelHandler.handle_sign_local_commitment_tx2, handler, readyChannel, hs, chanStep, needReady, fail]
+  · have h := signHolder_signed c n
+    simp only [ChannelHandler.handle_sign_local_commitment_tx2, handler, readyChannel, hs, chanStep, needReady, Rs.bind_ok]
+    generalize signHolder c n = r at h
+    rcases r with ⟨c', ⟨res, sec, sg, vd⟩, p⟩
+    cases res <;> simp_all [resM, hcls]
+
+/-- `SignMutualCloseTx2` -/
+theorem C02_fn_handle_sign_mutual_close_tx2 (F : Nat → Bytes → Bytes) (dp : Nat → Nat) (ts : Nat → Nat)
+    (P : Nat → Nat → Nat → Nat → Nat → Bool) (c : Chan) (ver : Nat) (m : SignMutualCloseTx2 Nat Nat) :
+    let g := ChannelHandler.handle_sign_mutual_close_tx2 (Signature := Nat) dp readyChannel ts
+               (fun ch tl tr ls rs hint => resM (signMutualClose ch (P tl tr ls rs hint)).out.res 0)
+               (fun s => ⟨s, 1⟩) (handler c ver) m
+    (chanStep F c (.signMutualClose (P m.to_local_value_sat m.to_remote_value_sat (ts m.local_script)
+        (ts m.remote_script) (dp m.local_wallet_path_hint)))).out.res = hcls g := by
+  cases hs : c.slot <;>
+    simp [ChannelHandler.handle_sign_mutual_close_tx2, handler, readyChannel, hs, chanStep, needReady, fail]
+  generalize (signMutualClose c _).out.res = r
+  cases r <;> simp [resM, hcls]
+
+/-- `SignCommitmentTx` (root handler) -/
+theorem C02_fn_handle_sign_commitment_tx (F : Nat → Bytes → Bytes) (tin : Nat → Nat) (tl : Nat → Nat) (pin : Nat → Nat)
+    (op : Nat → List Nat) (P : Nat → List Nat → Bool) (c : Chan) (m : SignCommitmentTx Nat Nat) :
+    let g := RootHandler.handle_sign_commitment_tx (Signature := Nat) (fun _ _ => ()) tin tl pin op readyChannel
+               (fun ch tx ops => resM (signMutualClose ch (P tx ops)).out.res 0)
+               (fun ch k => resM (signHolder ch k).out.res k) (fun s => ⟨s, 1⟩) ({ node := c } : RootHandler Chan) m
+    let o := (chanStep F c (if tl (tin m.tx) = 0 then .signMutualClose (P (tin m.tx) (op (pin m.psbt)))
+                            else .signHolder m.commitment_number)).out
+    o.res = hcls g
+    ∧ (∀ r, g = .ok r → tl (tin m.tx) ≠ 0 → o.signed = some r.signature.signature) := by
+  by_cases hl : tl (tin m.tx) = 0
+  · cases hs : c.slot <;>
+      simp [RootHandler.handle_sign_commitment_tx, readyChannel, hs, chanStep, needReady, fail, hl]
+    generalize (signMutualClose c _).out.res = r
+    cases r <;> simp [resM, hcls]
+  · cases hs : c.slot
+    · simp [RootHandler.handle_sign_commitment_tx, readyChannel, hs, chanStep, needReady, fail, hl]
+    · have h := signHolder_signed c m.commitment_number
+      simp only [RootHandler.handle_sign_commitment_tx, readyChannel, hs, chanStep, needReady, Rs.bind_ok, hl, if_false,
+        beq_iff_eq]
+      generalize signHolder c m.commitment_number = r at h
+      rcases r with ⟨c', ⟨res, sec, sg, vd⟩, p⟩
+      cases res <;> simp_all [resM, hcls]
+
+/-- non-vacuity: the current commitment 0 is signed through both handlers, a mutual close through the root handler -/
+example :
+    let c : Chan := { slot := .ready, next := 1, cur := some 11, curInfo := some 12 }
+    hcls (ChannelHandler.handle_sign_local_commitment_tx2 (Signature := Nat) readyChannel
+            (fun ch k => resM (signHolder ch k).out.res k) (fun s => ⟨s, 1⟩) (handler c 6) ⟨0⟩) = .ok
+    ∧ hcls (RootHandler.handle_sign_commitment_tx (Signature := Nat) (DerivationPath := Nat) (fun _ _ => ()) id (fun t => t) id (fun _ => [])
+            readyChannel (fun ch _ _ => resM (signMutualClose ch true).out.res 0)
+            (fun ch k => resM (signHolder ch k).out.res k) (fun s => ⟨s, 1⟩) ({ node := c } : RootHandler Chan)
+            { peer_id := 0, dbid := 1, tx := 0, psbt := 0, commitment_number := 5 }) = .ok
+    ∧ hcls (RootHandler.handle_sign_commitment_tx (Signature := Nat) (DerivationPath := Nat) (fun _ _ => ()) id (fun t => t) id (fun _ => [])
+            readyChannel (fun ch _ _ => resM (signMutualClose ch true).out.res 0)
+            (fun ch k => resM (signHolder ch k).out.res k) (fun s => ⟨s, 1⟩) ({ node := c } : RootHandler Chan)
+            { peer_id := 0, dbid := 1, tx := 7, psbt := 0, commitment_number := 5 }) = .errPolicy := by
+  decide
+
+end HandlerArms
 
 end VlsModel.Props.C02Fn
